@@ -324,7 +324,7 @@ fn run_sync(ops: &[Value], port: u16, timeout: Duration) -> (Vec<Value>, Vec<u64
                 let hello = ClientId::Domain(s_of(&op["hello"]));
                 match multi_addrs(op, port, &mut holes) {
                     None => json!("skip:no-black-hole"),
-                    Some(addrs) => { let t0 = Instant::now(); match SmtpConnection::connect(&addrs[..], Some(timeout), &hello, None, None) {
+                    Some(addrs) => { let t0 = Instant::now(); let tp = wrapper_tls(op); match SmtpConnection::connect(&addrs[..], Some(timeout), &hello, tp.as_ref(), None) {
                         Ok(c) => { conn = Some(c); json!(format!("ok,{}", t0.elapsed().as_millis())) }
                         Err(e) => json!(format!("{},{}", render_err(&e).as_str().unwrap_or("err"), t0.elapsed().as_millis())),
                     } }
@@ -430,11 +430,34 @@ pub fn black_hole() -> Option<BlackHole> {
     }
     None
 }
+/// "tls": "wrapper" on a connect_multi operation: implicit TLS (any certificate would do - the point is what is written when there is no TLS at all)
+fn wrapper_tls(op: &Value) -> Option<lettre::transport::smtp::client::TlsParameters> {
+    if op["tls"].as_str() == Some("wrapper") {
+        lettre::transport::smtp::client::TlsParameters::builder("localhost".into()).dangerous_accept_invalid_certs(true).build().ok()
+    } else { None }
+}
 /// the addresses of a "connect_multi" operation: "hole" is a fresh silent listener, "server" the scripted server of the scenario
 fn multi_addrs(op: &Value, port: u16, holes: &mut Vec<BlackHole>) -> Option<Vec<std::net::SocketAddr>> {
     let mut v = vec![];
     for a in op["addrs"].as_array()? {
-        if a.as_str() == Some("hole") { let h = black_hole()?; v.push(h.addr); holes.push(h); } else { v.push(std::net::SocketAddr::from(([127, 0, 0, 1], port))); }
+        if a.as_str() == Some("hole") { let h = black_hole()?; v.push(h.addr); holes.push(h); }
+        else if a.as_str() == Some("rubbish") {
+            // a node that accepts the TCP connection and answers whatever it is sent with something that is no TLS record and no SMTP reply
+            let l = TcpListener::bind(("127.0.0.1", 0)).ok()?;
+            v.push(l.local_addr().ok()?);
+            std::thread::spawn(move || {
+                for _ in 0..4 {
+                    if let Ok((mut s, _)) = l.accept() {
+                        let _ = s.set_read_timeout(Some(Duration::from_millis(500)));
+                        let mut b = [0u8; 512];
+                        let _ = s.read(&mut b);
+                        let _ = s.write_all(b"HTTP/1.1 400 Bad Request\r\n\r\n");
+                        let _ = s.shutdown(Shutdown::Both);
+                    }
+                }
+            });
+        }
+        else { v.push(std::net::SocketAddr::from(([127, 0, 0, 1], port))); }
     }
     Some(v)
 }
@@ -566,7 +589,7 @@ async fn run_tokio(ops: &[Value], port: u16, timeout: Duration) -> (Vec<Value>, 
                 let hello = ClientId::Domain(s_of(&op["hello"]));
                 match multi_addrs(op, port, &mut holes) {
                     None => json!("skip:no-black-hole"),
-                    Some(addrs) => { let t0 = Instant::now(); match AsyncSmtpConnection::connect_tokio1(&addrs[..], Some(timeout), &hello, None, None).await {
+                    Some(addrs) => { let t0 = Instant::now(); match AsyncSmtpConnection::connect_tokio1(&addrs[..], Some(timeout), &hello, wrapper_tls(op), None).await {
                         Ok(c) => { conn = Some(c); json!(format!("ok,{}", t0.elapsed().as_millis())) }
                         Err(e) => json!(format!("{},{}", render_err(&e).as_str().unwrap_or("err"), t0.elapsed().as_millis())),
                     } }
